@@ -121,6 +121,10 @@ enum Case {
     /// +-m, the others +-0), every other argument of the same type stands in a relation to it (equal, opposite,
     /// parallel, anti-parallel, orthogonal axis, ordinary), scalar arguments take a few plain values
     Related { base: usize, rel: usize, sc: usize },
+    /// every float-bearing glam argument takes a *structured* value (identity / zero / singular / two equal columns /
+    /// 180-degree rotation / permutation matrices; identity, negated identity, half-turn quaternions; axis-aligned,
+    /// diagonal, parallel and anti-parallel non-axis vectors ...): product over the arguments (sampled if large)
+    Structured { combo: usize },
     /// every float element drawn independently from the swarm mix
     Sample { k: usize },
 }
@@ -160,6 +164,12 @@ fn cases_of(op: &OpDesc, samples: usize) -> Vec<Case> {
             }
         }
     }
+    let total = structured_total(op);
+    if total > 0 {
+        for combo in 0..total.min(4096) {
+            v.push(Case::Structured { combo });
+        }
+    }
     let ns = if op.args.is_empty() { 1 } else { samples };
     for k in 0..ns {
         v.push(Case::Sample { k });
@@ -170,6 +180,128 @@ fn cases_of(op: &OpDesc, samples: usize) -> Vec<Case> {
         }
     }
     v
+}
+
+/// Structured values of a float glam type, by index. Lanes are given as small exact numbers; `None` past the end.
+fn structured(t: TyId, k: usize) -> Option<Val> {
+    let e = t.elem();
+    if !matches!(e, Elem::F32 | Elem::F64) {
+        return None;
+    }
+    let n = t.n();
+    let name = t.name();
+    let mk = |ls: &[f64]| Some(t.from_bits(&ls.iter().map(|x| fbits(e, *x)).collect::<Vec<_>>()));
+    let h = 0.5f64.sqrt();
+    if name.contains("Quat") {
+        let list: [[f64; 4]; 11] = [
+            [0.0, 0.0, 0.0, 1.0], [0.0, 0.0, 0.0, -1.0], [1.0, 0.0, 0.0, 0.0], [0.0, 1.0, 0.0, 0.0], [0.0, 0.0, 1.0, 0.0],
+            [h, 0.0, 0.0, h], [0.0, h, 0.0, -h], [0.5, 0.5, 0.5, 0.5], [0.0, 0.0, 0.0, 0.0], [1.0, 2.0, 3.0, 4.0], [-1.0, -2.0, -3.0, -4.0],
+        ];
+        return list.get(k).and_then(|l| mk(l));
+    }
+    let (cols, rows, tr) = match name {
+        "Mat2" | "DMat2" => (2, 2, 0),
+        "Mat3" | "Mat3A" | "DMat3" => (3, 3, 0),
+        "Mat4" | "DMat4" => (4, 4, 0),
+        "Affine2" | "DAffine2" => (2, 2, 2),
+        "Affine3A" | "DAffine3" => (3, 3, 3),
+        _ => (0, 0, 0),
+    };
+    if cols > 0 {
+        // matrix part, column-major
+        let d = cols;
+        let ident = |v: f64| -> Vec<f64> { (0..d * d).map(|i| if i / d == i % d { v } else { 0.0 }).collect() };
+        let mut m: Vec<f64> = match k % 14 {
+            0 => ident(1.0),
+            1 => ident(0.0),
+            2 => ident(-1.0),
+            3 => { let mut m = ident(1.0); m[d * d - 1] = 0.0; m }                       // one zero on the diagonal
+            4 => { let mut m = ident(2.0); for r in 0..d { m[d + r] = m[r]; } m }           // two equal columns
+            5 => { let mut m: Vec<f64> = (0..d * d).map(|i| 1.0 + i as f64).collect(); for c in 0..d { m[c * d] = 0.0; } m } // zero row
+            6 => { let mut m = ident(1.0); m[0] = -1.0; m[d + 1] = -1.0; m }                // half turn about the last axis
+            7 => { let mut m = ident(1.0); m[0] = 0.0; m[1] = 1.0; m[d] = -1.0; m[d + 1] = 0.0; m } // quarter turn
+            8 => (0..d * d).map(|i| (1 + i % d) as f64 * (1 + i / d) as f64).collect(),     // rank one
+            9 => { let mut m = ident(1.0); m[0] = 0.0; m[1] = 1.0; m[d] = 1.0; m[d + 1] = 0.0; m } // permutation (reflection)
+            10 => vec![1.0; d * d],
+            11 => (0..d * d).map(|i| if i % d < i / d { 1.0 + i as f64 } else { 0.0 }).collect(), // strictly triangular
+            12 => (0..d * d).map(|i| 1.0 + i as f64).collect(),                             // generic
+            _ => ident(1e20),
+        };
+        if k >= 28 {
+            return None;
+        }
+        if tr > 0 {
+            let t: Vec<f64> = if k / 14 == 0 { vec![0.0; tr] } else { (0..tr).map(|i| 1.0 + i as f64).collect() };
+            m.extend(t);
+        } else if k / 14 == 1 {
+            // second pass for plain matrices: the transpose-asymmetric variant of each shape
+            m.swap(1, d);
+        }
+        if m.len() != n {
+            return None;
+        }
+        return mk(&m);
+    }
+    // plain vectors
+    let base: [f64; 4] = [1.0, 2.0, 3.0, 4.0];
+    let v: Vec<f64> = match k {
+        k if k < 2 * n => (0..n).map(|l| if l == k / 2 { if k % 2 == 0 { 1.0 } else { -1.0 } } else { 0.0 }).collect(),
+        k if k == 2 * n => vec![1.0; n],
+        k if k == 2 * n + 1 => (0..n).map(|l| if l + 1 == n { 0.0 } else { 1.0 }).collect(),
+        k if k == 2 * n + 2 => base[..n].to_vec(),
+        k if k == 2 * n + 3 => base[..n].iter().map(|x| -2.0 * x).collect(),
+        k if k == 2 * n + 4 => vec![0.0; n],
+        k if k == 2 * n + 5 => (0..n).map(|l| [0.6, 0.8, 0.0, 0.0][l]).collect(),
+        k if k == 2 * n + 6 => base[..n].iter().map(|x| 1e-25 * x).collect(),
+        k if k == 2 * n + 7 => base[..n].iter().map(|x| 1e25 * x).collect(),
+        k if k == 2 * n + 8 => vec![-0.0; n],
+        _ => return None,
+    };
+    mk(&v)
+}
+
+fn structured_count(ty: &Ty) -> usize {
+    use std::sync::OnceLock;
+    static COUNTS: OnceLock<std::collections::HashMap<TyId, usize>> = OnceLock::new();
+    match ty {
+        Ty::G(t) => *COUNTS
+            .get_or_init(|| ALL_TYIDS.iter().map(|t| (*t, (0..64).take_while(|k| structured(*t, *k).is_some()).count())).collect())
+            .get(t)
+            .unwrap_or(&0),
+        Ty::S(Elem::F32) | Ty::S(Elem::F64) => 6,
+        _ => 0,
+    }
+}
+
+/// number of structured combinations of an op (0 when no glam float argument)
+fn structured_total(op: &OpDesc) -> usize {
+    if !op.args.iter().any(|t| matches!(t, Ty::G(id) if matches!(id.elem(), Elem::F32 | Elem::F64))) {
+        return 0;
+    }
+    op.args.iter().map(|t| structured_count(t).max(1)).fold(1usize, |a, b| a.saturating_mul(b))
+}
+
+fn structured_args(op: &OpDesc, combo: usize, rng: &mut Rng) -> Vec<Val> {
+    let total = structured_total(op);
+    // enumerate the product when it is small, otherwise a deterministic pseudo-random walk through it
+    let mut idx = if total <= 4096 { combo } else { (combo as u64).wrapping_mul(0x9E37_79B9_7F4A_7C15) as usize % total };
+    let scal = [0.0, 0.5, 1.0, -1.0, core::f64::consts::PI, 2.0];
+    (0..op.args.len())
+        .map(|i| {
+            let c = structured_count(&op.args[i]);
+            if c == 0 {
+                return gen_arg(op, i, rng, Cls::Ordinary);
+            }
+            let k = idx % c;
+            idx /= c;
+            match &op.args[i] {
+                Ty::G(t) => structured(*t, k).unwrap(),
+                Ty::S(Elem::F32) => Val::F32(scal[k] as f32),
+                Ty::S(Elem::F64) => Val::F64(scal[k]),
+                _ => unreachable!(),
+            }
+        })
+        .collect()
 }
 
 /// the first float vector / quaternion argument, if at least one more float-bearing argument exists
@@ -231,6 +363,9 @@ fn make_args(op: &OpDesc, oi: usize, case: &Case, ci: usize, seed: u64) -> Vec<V
     let fpos: Vec<usize> = (0..op.args.len()).filter(|i| op.args[*i].is_float_bearing()).collect();
     if let Case::Related { base, rel, sc } = case {
         return related_args(op, *base, *rel, *sc, &mut rng);
+    }
+    if let Case::Structured { combo } = case {
+        return structured_args(op, *combo, &mut rng);
     }
     if let Case::TwoLanes { .. } = case {
         let mut args: Vec<Val> = (0..op.args.len()).map(|i| gen_arg(op, i, &mut rng, Cls::Ordinary)).collect();
@@ -360,7 +495,7 @@ fn sweep_op(oi: usize, seed: u64, samples: usize) -> OpResult {
         if seen.insert(d.finish()) {
             res.distinct += 1;
         }
-        if !matches!(case, Case::Sample { .. } | Case::TwoLanes { .. } | Case::Related { .. }) {
+        if !matches!(case, Case::Sample { .. } | Case::TwoLanes { .. } | Case::Related { .. } | Case::Structured { .. }) {
             res.lattice_hits += 1;
         }
         res.evals += 1;
